@@ -349,7 +349,10 @@ def impl(case):
                         c, d, w = o[1], o[2], o[3]
                         dd = tuple(np.array(x) for x in d)
                         ww = None if w is None else tuple(np.array(x) for x in w)
-                        g.fit(tuple(np.array(x) for x in c), dd[0] if len(dd) == 1 else dd, None if ww is None else (ww[0] if len(ww) == 1 else ww))
+                        cc = tuple(np.array(x) for x in c)
+                        g.fit(cc, dd[0] if len(dd) == 1 else dd, None if ww is None else (ww[0] if len(ww) == 1 else ww))
+                        for arr in cc + dd + (ww or ()):       # the caller reuses its buffers after the fit: the model must not follow them
+                            arr[...] = arr * -2.0 + 7.0
                     elif o[0] == "clone":
                         g = clone(g)
                     elif o[0] == "set_params":
@@ -374,7 +377,10 @@ def impl(case):
                     c, d, w = ds
                     dd = tuple(np.array(x) for x in d)
                     ww = None if w is None else tuple(np.array(x) for x in w)
-                    est.fit(tuple(np.array(x) for x in c), dd[0] if len(dd) == 1 else dd, None if ww is None else (ww[0] if len(ww) == 1 else ww))
+                    cc = tuple(np.array(x) for x in c)
+                    est.fit(cc, dd[0] if len(dd) == 1 else dd, None if ww is None else (ww[0] if len(ww) == 1 else ww))
+                    for arr in cc + dd + (ww or ()):       # the caller reuses its buffers after the fit
+                        arr[...] = arr * -2.0 + 7.0
                     return est
                 for ds in sets:
                     fit(g, ds)
